@@ -320,11 +320,14 @@ pub fn gen_plan(seed: u64, prof: &Profile) -> Plan {
                     };
                     let outline = outlines && c.r.chance(1, 5);
                     let mut id = format!("{prefix}s{si}");
+                    let mut tagged = serial;
                     if serial && c.r.chance(1, 2) {
-                        // also recognisable by the custom classifier
+                        // also recognisable by the custom classifier - or, half of the time, by it alone
+                        // (no `@serial` tag: serial only where `which_scenario` is the custom one)
                         id.push_str("_SER");
+                        tagged = c.r.chance(1, 2);
                     }
-                    gen_scenario(c, &id, max_steps, serial, rt, outline)
+                    gen_scenario(c, &id, max_steps, tagged, rt, outline)
                 })
                 .collect()
         };
